@@ -150,6 +150,7 @@ func (kgdb *KVInterfaceGDB) BulkAdd(stream <-chan *gdbi.GraphElement) error {
 				continue
 			}
 		}
+		kgdb.kvg.ts.Touch(kgdb.graph)
 		return bulkErr.ErrorOrNil()
 	})
 	return err
